@@ -213,22 +213,25 @@ func ruleSignalTable(c *core.Ctx) {
 		return
 	}
 	isUID := func(v ssa.Value) bool { return isFieldOf(v, userID) }
-	// removeSignalUser: writes to signals guarded by userID equality and endpoint equality
+	// removeSignalUser (and the private helpers it hands the work to): writes to
+	// signals guarded by userID equality and endpoint equality
 	idp := ssa.Value(rm.Params[1])
-	isParam := func(v ssa.Value) bool { return core.Canon(v) == idp }
+	isParam := func(v ssa.Value) bool { return resolvesTo(c, v, idp, 0) }
 	isEP := func(v ssa.Value) bool {
 		cr, _ := core.CallResult(v)
 		return cr != nil && cr.Common().IsInvoke() && cr.Common().Method.Name() == "EndPoint"
 	}
 	n := 0
 	ok := true
-	for _, acc := range fieldAccesses(rm, sigF) {
-		if !acc.write {
-			continue
-		}
-		n++
-		if !core.Guarded(rm, acc.instr, core.Eq(isUID, isParam)) || !core.Guarded(rm, acc.instr, core.Eq(isEP, isEP)) {
-			ok = false
+	for _, f := range unitOf(c, rm) {
+		for _, acc := range fieldAccesses(f, sigF) {
+			if !acc.write {
+				continue
+			}
+			n++
+			if !core.Guarded(f, acc.instr, core.Eq(isUID, isParam)) || !core.Guarded(f, acc.instr, core.Eq(isEP, isEP)) {
+				ok = false
+			}
 		}
 	}
 	c.Check(ok && n > 0, rule, "bus.signalHandler.removeSignalUser", rm.Pos(), "an entry is removed only if its user id and its connection are the caller's",
@@ -241,39 +244,160 @@ func ruleSignalTable(c *core.Ctx) {
 		}
 	}
 	c.Check(okRet, rule, "bus.signalHandler.removeSignalUser/result", rm.Pos(), "nil only when an entry matched", "removeSignalUser reports success without having found the registration")
-	// addSignalUser: a user id already present prevents the append
+	// addSignalUser: a user id already present prevents the append.  The id of the
+	// registration being added: the parameter, or the userID field of the entry
+	// built from it (also as seen from a private helper that receives either).
 	idp2 := ssa.Value(add.Params[1])
-	isParam2 := func(v ssa.Value) bool { return core.Canon(v) == idp2 }
-	var appendStore ssa.Instruction
-	for _, acc := range fieldAccesses(add, sigF) {
-		if acc.write {
-			appendStore = acc.instr
+	isNewID := func(v ssa.Value) bool {
+		if resolvesTo(c, v, idp2, 0) {
+			return true
+		}
+		switch x := v.(type) {
+		case *ssa.Field:
+			return isUID(v) && structFieldIs(c, x.X, userID, idp2, 0)
+		case *ssa.UnOp:
+			if fa, isFA := x.X.(*ssa.FieldAddr); isFA && x.Op == token.MUL && isUID(v) {
+				if al, isAlloc := fa.X.(*ssa.Alloc); isAlloc {
+					return allocFieldIs(c, al, userID, idp2, 0)
+				}
+			}
+		}
+		return false
+	}
+	nStores := 0
+	for _, f := range unitOf(c, add) {
+		for _, acc := range fieldAccesses(f, sigF) {
+			if !acc.write {
+				continue
+			}
+			nStores++
+			appendStore := acc.instr
+			dup := false
+			for _, b := range f.Blocks {
+				ifi, isIf := b.Instrs[len(b.Instrs)-1].(*ssa.If)
+				if !isIf {
+					continue
+				}
+				cm, neg := core.CondCmp(ifi.Cond)
+				if !(isUID(cm.X) && isNewID(cm.Y) && !isNewID(cm.X) || isUID(cm.Y) && isNewID(cm.X) && !isNewID(cm.Y)) {
+					continue
+				}
+				eqEdge := 0
+				if (cm.Op == token.NEQ) != neg {
+					eqEdge = 1
+				}
+				// from the branch where the id is already present the store is not reached
+				// (a search variable set there is not found unset afterwards)
+				if !core.SearchReachEdge(b, eqEdge)[appendStore.Block()] {
+					dup = true
+				}
+			}
+			c.Check(dup, rule, "bus.signalHandler.addSignalUser", appendStore.Pos(), "an id already registered prevents a second registration", "addSignalUser registers a user id twice: the subscriber receives every event twice and removal leaves a stale entry")
 		}
 	}
-	if appendStore == nil {
+	if nStores == 0 {
 		c.Fail(rule, "bus.signalHandler.addSignalUser", add.Pos(), "addSignalUser never stores the registration")
-		return
 	}
-	dup := false
-	for _, b := range add.Blocks {
-		ifi, isIf := b.Instrs[len(b.Instrs)-1].(*ssa.If)
-		if !isIf {
-			continue
-		}
-		cm, neg := core.CondCmp(ifi.Cond)
-		if !(isUID(cm.X) && isParam2(cm.Y) || isUID(cm.Y) && isParam2(cm.X)) {
-			continue
-		}
-		eqEdge := 0
-		if (cm.Op == token.NEQ) != neg {
-			eqEdge = 1
-		}
-		r := core.ReachFrom(core.Point{B: b.Succs[eqEdge], I: 0}, nil, nil)
-		if !r.Has(appendStore) && b.Succs[eqEdge] != appendStore.Block() {
-			dup = true
+}
+
+// resolvesTo: v is target, or a parameter of a private helper every call site
+// of which passes a value that resolves to target.
+func resolvesTo(c *core.Ctx, v, target ssa.Value, depth int) bool {
+	w := core.Canon(v)
+	if w == target {
+		return true
+	}
+	p, ok := w.(*ssa.Parameter)
+	if !ok || depth > 3 || p.Parent() == nil || !isPrivateHelper(c, p.Parent()) {
+		return false
+	}
+	h := p.Parent()
+	idx := -1
+	for i, hp := range h.Params {
+		if hp == p {
+			idx = i
 		}
 	}
-	c.Check(dup, rule, "bus.signalHandler.addSignalUser", appendStore.Pos(), "an id already registered prevents a second registration", "addSignalUser registers a user id twice: the subscriber receives every event twice and removal leaves a stale entry")
+	sites, _ := c.CallSites()
+	if idx < 0 || len(sites[h]) == 0 {
+		return false
+	}
+	for _, cs := range sites[h] {
+		args := cs.Common().Args
+		if idx >= len(args) || !resolvesTo(c, args[idx], target, depth+1) {
+			return false
+		}
+	}
+	return true
+}
+
+// structFieldIs: field fld of the struct value sv holds target: sv is read from
+// a local variable whose field was given target, or is a parameter of a
+// private helper whose call sites pass such a value.
+func structFieldIs(c *core.Ctx, sv ssa.Value, fld *types.Var, target ssa.Value, depth int) bool {
+	if depth > 3 {
+		return false
+	}
+	switch x := sv.(type) {
+	case *ssa.UnOp:
+		if al, ok := x.X.(*ssa.Alloc); ok && x.Op == token.MUL {
+			return allocFieldIs(c, al, fld, target, depth+1)
+		}
+	case *ssa.Parameter:
+		h := x.Parent()
+		if h == nil || !isPrivateHelper(c, h) {
+			return false
+		}
+		idx := -1
+		for i, hp := range h.Params {
+			if hp == x {
+				idx = i
+			}
+		}
+		sites, _ := c.CallSites()
+		if idx < 0 || len(sites[h]) == 0 {
+			return false
+		}
+		for _, cs := range sites[h] {
+			args := cs.Common().Args
+			if idx >= len(args) || !structFieldIs(c, args[idx], fld, target, depth+1) {
+				return false
+			}
+		}
+		return true
+	}
+	return false
+}
+
+// allocFieldIs: every store into field fld of local struct al (directly, or as
+// part of a whole-struct store) stores target.
+func allocFieldIs(c *core.Ctx, al *ssa.Alloc, fld *types.Var, target ssa.Value, depth int) bool {
+	n := 0
+	for _, r := range core.Referrers(al) {
+		switch x := r.(type) {
+		case *ssa.Store:
+			if x.Addr == ssa.Value(al) {
+				n++
+				if !structFieldIs(c, x.Val, fld, target, depth+1) {
+					return false
+				}
+			}
+		case *ssa.FieldAddr:
+			st, ok := al.Type().Underlying().(*types.Pointer).Elem().Underlying().(*types.Struct)
+			if !ok || x.Field >= st.NumFields() || st.Field(x.Field) != fld {
+				continue
+			}
+			for _, u := range core.Referrers(x) {
+				if s2, ok := u.(*ssa.Store); ok && s2.Addr == ssa.Value(x) {
+					n++
+					if !resolvesTo(c, s2.Val, target, depth+1) {
+						return false
+					}
+				}
+			}
+		}
+	}
+	return n > 0
 }
 
 func ruleRefcount(c *core.Ctx) {
@@ -283,6 +407,19 @@ func ruleRefcount(c *core.Ctx) {
 		c.Undecided(rule, "bus.proxy.SubscribeID", token.NoPos, "anchor not found")
 		return
 	}
+	// SubscribeID, its closures and the private helpers they hand work to
+	var subUnit []*ssa.Function
+	{
+		seen := map[*ssa.Function]bool{}
+		for _, f := range core.AnonFuncs(fn) {
+			for _, u := range unitOf(c, f) {
+				if !seen[u] {
+					seen[u] = true
+					subUnit = append(subUnit, u)
+				}
+			}
+		}
+	}
 	// State calls: invoke Client.State(key, delta)
 	type stateCall struct {
 		call  *ssa.Call
@@ -291,7 +428,7 @@ func ruleRefcount(c *core.Ctx) {
 		fn    *ssa.Function
 	}
 	var states []stateCall
-	for _, f := range core.AnonFuncs(fn) {
+	for _, f := range subUnit {
 		for _, call := range core.Calls(f) {
 			cc := call.Common()
 			if cc.IsInvoke() && cc.Method.Name() == "State" && len(cc.Args) == 2 {
@@ -326,7 +463,7 @@ func ruleRefcount(c *core.Ctx) {
 	check := func(method string, delta int64, want int64, key string) {
 		var site ssa.CallInstruction
 		var sf *ssa.Function
-		for _, f := range core.AnonFuncs(fn) {
+		for _, f := range subUnit {
 			for _, call := range core.Calls(f) {
 				if s := core.StaticCallee(call); s != nil && s.Name() == method {
 					site, sf = call, f
@@ -381,7 +518,7 @@ func ruleRefcount(c *core.Ctx) {
 		}
 		same := func(a, b ssa.Value) bool {
 			a, b = core.StripConv(core.Canon(a)), core.StripConv(core.Canon(b))
-			if a == b || core.SameValue(a, b) {
+			if a == b || core.SameValue(a, b) || resolvesTo(c, b, a, 0) {
 				return true
 			}
 			pa, pb := core.AccessPath(a), core.AccessPath(b)
@@ -419,7 +556,7 @@ func ruleRefcount(c *core.Ctx) {
 	// wrong id and the server-side registration leaks (duplicated events)
 	var addFmt string
 	var addPos token.Pos
-	for _, f := range core.AnonFuncs(fn) {
+	for _, f := range subUnit {
 		for _, call := range core.Calls(f) {
 			cc := call.Common()
 			if cc.IsInvoke() && cc.Method.Name() == "State" && len(cc.Args) == 2 {
@@ -434,7 +571,7 @@ func ruleRefcount(c *core.Ctx) {
 	}
 	if addFmt != "" {
 		balanced := false
-		for _, f := range core.AnonFuncs(fn) {
+		for _, f := range subUnit {
 			for _, call := range core.Calls(f) {
 				cc := call.Common()
 				if !(cc.IsInvoke() && cc.Method.Name() == "State" && len(cc.Args) == 2) || keyShape(cc.Args[0]) != addFmt {
@@ -459,7 +596,7 @@ func ruleRefcount(c *core.Ctx) {
 	// wrote (any of the local subscribers may be the last one to leave)
 	{
 		var reg, unreg ssa.CallInstruction
-		for _, f := range core.AnonFuncs(fn) {
+		for _, f := range subUnit {
 			for _, call := range core.Calls(f) {
 				name := ""
 				if sc := core.StaticCallee(call); sc != nil {
@@ -483,7 +620,7 @@ func ruleRefcount(c *core.Ctx) {
 			rid, uid := core.StripConv(core.Canon(ra[len(ra)-1])), core.StripConv(core.Canon(ua[len(ua)-1]))
 			// stored: some State(key, v) call with v the registered id
 			stored := ""
-			for _, f := range core.AnonFuncs(fn) {
+			for _, f := range subUnit {
 				for _, call := range core.Calls(f) {
 					cc := call.Common()
 					if cc.IsInvoke() && cc.Method.Name() == "State" && len(cc.Args) == 2 && core.StripConv(core.Canon(cc.Args[1])) == rid {
@@ -501,28 +638,58 @@ func ruleRefcount(c *core.Ctx) {
 		}
 		c.Check(bad == "", rule, "bus.proxy.SubscribeID/registration-id-shared", fn.Pos(), "the registration id is saved in and read back from the shared client state", bad)
 	}
-	// the returned cancel always calls the local cancel
-	okCancel := false
-	for _, f := range fn.AnonFuncs {
+	// the returned cancel always calls the local cancel (itself, or through a
+	// private helper it hands the cancel function to)
+	isLocalCancel := func(v ssa.Value) bool {
+		e, ok := core.Canon(v).(*ssa.Extract)
+		if !ok {
+			return false
+		}
+		src, ok := e.Tuple.(*ssa.Call)
+		return ok && src.Common().IsInvoke() && src.Common().Method.Name() == "Subscribe" && e.Index == 0
+	}
+	var alwaysCalls func(f *ssa.Function, isVal func(ssa.Value) bool, depth int) bool
+	alwaysCalls = func(f *ssa.Function, isVal func(ssa.Value) bool, depth int) bool {
+		if depth > 3 || len(f.Blocks) == 0 {
+			return false
+		}
 		for _, call := range core.Calls(f) {
+			if _, plain := call.(*ssa.Call); !plain {
+				continue
+			}
 			cc := call.Common()
-			if cc.IsInvoke() || cc.StaticCallee() != nil {
-				continue
-			}
-			// dynamic call of a captured func value: the cancel returned by client.Subscribe
-			e, ok := core.Canon(cc.Value).(*ssa.Extract)
-			if !ok {
-				continue
-			}
-			if src, ok := e.Tuple.(*ssa.Call); ok && src.Common().IsInvoke() && src.Common().Method.Name() == "Subscribe" && e.Index == 0 {
-				all := true
-				for _, ret := range core.Returns(f) {
-					if !core.MustPassBefore(f, ret, func(x ssa.Instruction) bool { return x == call.(ssa.Instruction) }) {
-						all = false
+			hit := false
+			if !cc.IsInvoke() && cc.StaticCallee() == nil && isVal(cc.Value) {
+				hit = true
+			} else if h := cc.StaticCallee(); h != nil && isPrivateHelper(c, h) {
+				for k, a := range cc.Args {
+					if isVal(a) && k < len(h.Params) {
+						hp := h.Params[k]
+						if alwaysCalls(h, func(v ssa.Value) bool { return core.Canon(v) == ssa.Value(hp) }, depth+1) {
+							hit = true
+						}
 					}
 				}
-				okCancel = all
 			}
+			if !hit {
+				continue
+			}
+			all := true
+			for _, ret := range core.Returns(f) {
+				if !core.MustPassBefore(f, ret, func(x ssa.Instruction) bool { return x == call.(ssa.Instruction) }) {
+					all = false
+				}
+			}
+			if all {
+				return true
+			}
+		}
+		return false
+	}
+	okCancel := false
+	for _, f := range fn.AnonFuncs {
+		if alwaysCalls(f, isLocalCancel, 0) {
+			okCancel = true
 		}
 	}
 	c.Check(okCancel, rule, "bus.proxy.SubscribeID/cancel", fn.Pos(), "the returned cancel function always cancels the local subscription", "the cancel function returned by SubscribeID can return without cancelling the local subscription: the subscriber's channel is never closed")
